@@ -1157,7 +1157,9 @@ class QuantityMeta(ClassWithDefinitionMeta):
         if not symbol:
             raise ValueError("'symbol' must not be an empty string.")
         if isinstance(define_as, Quantity):
-            if not isinstance(define_as, cls):
+            # an instance of a subclass of `cls` with its own reference unit
+            # is a quantity of another type
+            if define_as.unit.qty_cls is not cls:
                 raise TypeError(f"Can't use an instance of "
                                 f"'{define_as.__class__.__name__}' as "
                                 f"equivalent of a '{cls.__name__}' unit.")
